@@ -25,6 +25,8 @@ func init() {
 		Run: runC09,
 	})
 	addMutants("C09",
+		mutant{"ShrinkTo measured against the whole buffer", "byte_buffer.go",
+			"\treturn b.ShrinkBy(b.WriteLen() - n)", "\treturn b.ShrinkBy(b.Len() - n)", "C09-R5"},
 		mutant{"Consume moves the wrong tail", "byte_buffer.go",
 			"\t\tcopy(b.data[b.si:], b.data[b.si+n:b.wi])\n\n\t\tb.ri -= n\n\t\tb.wi -= n", "\t\tcopy(b.data[b.si:], b.data[b.ri:b.wi])\n\n\t\tb.ri -= n\n\t\tb.wi -= n", "C09-R3"},
 		mutant{"Save records the index after moving si", "byte_buffer.go",
@@ -648,6 +650,27 @@ func runC09(c *Ctx) {
 				}
 				c.check(good, fn, "shrink", a.Instr.Pos(), "the write area shrinks by at most WriteLen()", name+" can move wi below ri (the amount is not bounded by WriteLen()): committed, unread bytes are cut off")
 			}
+		}
+		// ShrinkTo(n) leaves min(n, WriteLen()) bytes: it shrinks by WriteLen() - n (ShrinkBy clamps and ignores a negative amount)
+		{
+			fn := m("ShrinkTo")
+			good := false
+			got := "?"
+			for _, cc := range callsToFn(fn, m("ShrinkBy")) {
+				got = exprString(cc.Common().Args[1], nil, 0)
+				if got == "(WriteLen()-$n)" {
+					good = true
+				}
+			}
+			if len(storesTo(fn, wi)) > 0 {
+				good = false // a rewrite that moves wi itself: judged by the shrink rule above only if it goes through ShrinkBy
+				for _, a := range storesTo(fn, wi) {
+					if sl, ok := incrementOf(a.Val, wi); ok {
+						_ = sl
+					}
+				}
+			}
+			c.check(good, fn, "shrink to", fn.Pos(), "shrinks by WriteLen() - n", "ShrinkTo shrinks the write area by "+got+" instead of WriteLen() - n: with bytes in the save or read area it cuts off more written bytes than asked for (or all of them)")
 		}
 		// appends: wi grows by the length of what was appended
 		for _, name := range []string{"Write", "WriteByte", "WriteString"} {
